@@ -1099,9 +1099,9 @@ func (fr *frame) execBinOp(st *State, in *ssa.BinOp) {
 		case token.SUB:
 			r = App("-", SReal, x, y)
 		case token.MUL:
-			r = App("*", SReal, x, y)
+			r = vc.realMulDiv("*", x, y)
 		case token.QUO:
-			r = App("/", SReal, x, y)
+			r = vc.realMulDiv("/", x, y)
 		case token.EQL:
 			r = Eq(x, y)
 		case token.NEQ:
@@ -1438,6 +1438,48 @@ func (fr *frame) execConvert(st *State, in *ssa.Convert) {
 			fr.setT(in, vc.fresh("conv", vc.sortOf(to)))
 		}
 	}
+}
+
+// realMulDiv: a real product or quotient.  With "opt realarith=uf" a product of two non-literal reals and a quotient by a
+// non-literal real are applications of the uninterpreted functions rmul / rdiv: every model of real arithmetic is a model of the
+// uninterpreted reading, so what is proved this way holds for the real operations; the solvers stay in linear arithmetic.
+func (vc *VC) realMulDiv(op string, x, y *Term) *Term {
+	if vc.con == nil || vc.con.Opts["realarith"] != "uf" {
+		return App(op, SReal, x, y)
+	}
+	if op == "*" && (isRealLiteral(x) || isRealLiteral(y)) {
+		return App(op, SReal, x, y)
+	}
+	if op == "/" && isRealLiteral(y) {
+		return App(op, SReal, x, y)
+	}
+	name := "rmul"
+	if op == "/" {
+		name = "rdiv"
+	}
+	f := vc.declareFun(name, []*Sort{SReal, SReal}, SReal)
+	vc.assumed["opt realarith=uf: products and quotients of symbolic reals are uninterpreted functions (sound abstraction)"] = true
+	return App(f, SReal, x, y)
+}
+
+// isRealLiteral: a numeral, a negated numeral or a quotient of numerals
+func isRealLiteral(t *Term) bool {
+	if len(t.Args) == 0 {
+		if t.Op == "" {
+			return false
+		}
+		c := t.Op[0]
+		return c >= '0' && c <= '9'
+	}
+	if (t.Op == "-" && len(t.Args) == 1) || (t.Op == "/" && len(t.Args) == 2) {
+		for _, a := range t.Args {
+			if !isRealLiteral(a) {
+				return false
+			}
+		}
+		return true
+	}
+	return false
 }
 
 func (vc *VC) truncReal(x *Term) *Term {
